@@ -308,14 +308,19 @@ func H_C19_TCPFallback() {
 		vAssert(m.rawSendMsgStream(reply, buf.Bytes(), "") == nil, "c19.tcp.mk-reply")
 	case 2: // the peer hangs up
 	}
-	conn := &vConn{in: reply.out}
+	// the answer arrives after a symbolic delay; the probe's own deadline is one second away
+	delay := time.Duration(vRange(0, int(3*time.Second)))
+	conn := &vConn{in: reply.out, delay: delay}
 	f.tr.conn = conn
+	t0 := vNow()
 	ok, err := m.sendPingAndWaitForAck(Address{Addr: "10.0.0.2:7946", Name: vPeerA}, ping{SeqNo: seq, Node: vPeerA}, vNow().Add(time.Second))
+	vAssert(vNow().Sub(t0) <= time.Second, "c19.tcp.returns-by-the-probe-deadline")
 	if ok {
 		vAssert(err == nil && kind == 0 && back == seq, "c19.tcp.true-only-for-own-seq")
+		vAssert(delay <= time.Second, "c19.tcp.late-ack-not-counted")
 		vCover("c19.tcp.contact")
 	} else {
-		vAssert(!(kind == 0 && back == seq), "c19.tcp.matching-ack-accepted")
+		vAssert(!(kind == 0 && back == seq && delay < time.Second), "c19.tcp.matching-ack-accepted")
 		vCover("c19.tcp.nocontact")
 	}
 	vAssert(conn.closed == 1, "c19.tcp.conn-closed")
